@@ -1,5 +1,3 @@
--- Driver executable drv_dfa_ops (stub until its family is implemented).
-import AutomataVerif.Driver.Proto
+import AutomataVerif.Driver.DfaOps
 def main : IO Unit := do
-  AV.Proto.loop (← IO.getStdin) (← IO.getStdout) fun cmd _ =>
-    if cmd == "PING" then .ok "pong" else .error s!"unknown command {cmd}"
+  AV.Proto.loop (← IO.getStdin) (← IO.getStdout) AV.Driver.DfaOps.handle
